@@ -636,8 +636,9 @@ def run_part(ctx, tier):
     def job(key, note, module, cfg, cwd=D, **kw):
         jobs.append((key, note, lambda: _tlc(module, cfg, cwd=cwd, **kw)))
 
-    mcs = [("accept", "TLS port: 3 clients x 5 kinds, threaded, no timeout"), ("accept_t", "TLS port: threaded, connection timeout"),
-           ("accept_tokio", "TLS port: tokio"), ("redirect", "force-HTTPS listener: 3 clients x 6 kinds"),
+    mcs = [("accept", "TLS port (quick: 3 clients x 5 kinds; thorough: 2 clients + HttpConn loop catalogue on the established connection), threaded, no timeout"),
+           ("accept_t", "TLS port, threaded, connection timeout"),
+           ("accept_tokio", "TLS port, tokio"), ("redirect", "force-HTTPS listener: %d clients x 6 kinds" % (4 if thorough else 3)),
            ("redirect_fields", "force-HTTPS listener: Host x target x well-formedness x requests"), ("both", "TLS port + port 80 sharing the pool"),
            ("life", "shutdown / restart")]
     if thorough:
